@@ -13,7 +13,7 @@ INFO = {
     'rule': 'one case = one event history (+ drain mode); non-trivial = the idle state or a releasable unit was observed on it',
     'functions': ['pl.schedule.organize', 'pl.schedule.next_job_batch', 'pl.schedule.complete', 'pl.schedule.update', 'pl.schedule.purge',
                   'pl.schedule.find', 'pl.schedule.view_todo', 'pl.schedule.view_doing', 'pl.farm.dispatch', 'pl.farm._put', 'pl.farm.Hand._res', 'pl.farm.Hand.do', 'pl.farm.crew', 'pl.farm.rerunid', 'pl.dag.Construct (graph construction)'],
-    'bounds': {'quick': 'shapes G2,G3,G5,G8 with targets T1,T2 and G8 with an empty target set; histories of <=4 events + drain', 'thorough': 'shapes G2..G9,G11; <=5 events + drain (<=4 on 4-node shapes)'},
+    'bounds': {'quick': 'shapes G2,G3,G5,G8 with targets T1,T2 and G8 with an empty target set; histories of <=4 events + drain; directed family: a dependent is executing when its ancestor is requested again and dispatched, then 2 free events + drain', 'thorough': 'shapes G2..G9,G11; <=5 events + drain (<=4 on 4-node shapes); directed family with 3 free events'},
     'assumptions': [
         'algorithm engine = in-memory classes registered through the real dawgie.base.Factories (SynthAE)',
         'dawgie.db.targets/next, chronicle.append, context.fsm (always active), context.dumps replaced by in-process fakes',
